@@ -80,8 +80,44 @@ def catch_up(src, n=2, evaluations=3):
     src.obs('final', final)
 
 
+@rigged
+def recovery(src, n=2, faults=1, delays=0, rounds=6, closing=12, configs=('LIST+TIMEOUT', 'CORE'),
+             fences=(False, True), failures=('CONTINUE',)):
+    """H08c: after a solver-chosen disturbance and a bounded number of quiet rounds every live, mutually reachable,
+    non-isolated instance is in the state of its Master - OPERATION (CONCILIATION with the USER strategy and a
+    conflict) - with no start / stop job pending"""
+    from harness import cluster_common as CC
+    cl, cfg, plan, senders, traces = CC.run_schedule(src, n=n, rounds=rounds, closing=closing, faults=faults,
+                                                     delays=delays, configs=configs, fences=fences, failures=failures)
+    sig = '+'.join(k[0] for _, _, k in plan) or 'none'
+    for g in CC.groups(cl):
+        if 'TIMEOUT' not in cfg['synchro_options'] and len(g) < n:
+            continue        # the configured synchronization condition cannot be met (excluded by the statement)
+        states = {c.ident: c.fsm.state.name for c in g}
+        conflict = any(c.context.conflicting() for c in g)
+        expected = ('OPERATION', 'CONCILIATION') if conflict else ('OPERATION',)
+        for c in g:
+            st = c.rpc_intf.get_supvisors_state()
+            src.check('back-to-operation', st['fsm_statename'] in expected, sig=sig, instance=c.ident, states=states,
+                      trace=traces.get(c.ident), config=cfg)
+            src.check('no-job-pending', not st['starting_jobs'] and not st['stopping_jobs'], sig=sig,
+                      instance=c.ident, state=st)
+    src.check('no-internal-error', not cl.criticals(), sig=sig, log=cl.criticals()[:1])
+    src.reach('quiescent')
+    src.obs('states', {c.ident: c.fsm.state.name for c in cl.live()})
+
+
 HARNESSES = [
-    Harness('H08a', no_refused_decision, quick={'n': 2}, thorough={'n': 2, 'peer_views': 'full'},
+    Harness('H08c', recovery, quick={'n': 2, 'faults': 1, 'delays': 0},
+            thorough={'n': 3, 'faults': 2, 'delays': 0}, reach=('quiescent',), timeout=(150, 1800),
+            doc='return to OPERATION after a solver-chosen disturbance of a real cluster'),
+    Harness('H08c-resync', recovery, quick={'n': 2, 'faults': 1, 'delays': 0, 'failures': ('RESYNC',),
+                                            'configs': ('LIST+TIMEOUT',), 'fences': (False,)},
+            thorough=None, reach=('quiescent',), timeout=(100, 0), doc='same with supvisors_failure_strategy RESYNC'),
+    Harness('H08c-delays', recovery, quick=None, thorough={'n': 2, 'faults': 1, 'delays': 1}, reach=('quiescent',),
+            timeout=(0, 1800), doc='same with one held task'),
+    Harness('H08a', no_refused_decision, quick={'n': 2, 'steps': ('tick', 'state_event')},
+            thorough={'n': 2, 'peer_views': 'full'},
             reach=('evaluated',), timeout=(150, 1500),
             doc='no decision of a state class is refused by the transition table (unexpected transition)'),
 ]
